@@ -281,6 +281,16 @@ def sec_compose(ctx, rng, case):
         op5 = op.repeat(2, ids)
         got = sorted(cirq.measurement_key_names(op5))
         ctx.check(got == sorted(["i:a", "i:b", "j:a", "j:b"]), "composition-laws", "C12:repeat-ids-keys", "%r" % got, **wit)
+        # other spellings of the same constructions
+        ctx.check(body.to_op() == op and cirq.CircuitOperation(body, repetitions=2).with_repetition_ids(ids) == op5
+                  and op5.with_repetition_ids(["r", "s"]) == op.repeat(2, ["r", "s"]), "composition-laws", "C12:constructor-spellings",
+                  "FrozenCircuit.to_op / with_repetition_ids differ from CircuitOperation(...) / repeat(..)", **wit)
+        path = ("outer", "mid")[: int(rng.integers(1, 3))]
+        opp = cirq.with_key_path(op5, path)
+        gotp = sorted(cirq.measurement_key_names(opp))
+        wantp = sorted(":".join(path + (i_, k_)) for i_ in ids for k_ in ("a", "b"))
+        ctx.check(gotp == wantp and tuple(opp.parent_path) == tuple(path) and opp == cirq.with_key_path_prefix(op5, path),
+                  "composition-laws", "C12:with_key_path", "keys %r, expected %r" % (gotp, wantp), path=path, **wit)
         op6 = op5.repeat(2, ["p", "q"])
         got = sorted(cirq.measurement_key_names(op6))
         want = sorted("%s:%s:%s" % (o, i, k) for o in ["p", "q"] for i in ids for k in ["a", "b"])
